@@ -488,6 +488,10 @@ fn run_line(line: &str) -> Outcome {
         judging = false;
     }
     o.out = outs.join(";");
+    if o.out == "-" {
+        // a lone "-" is the comparison's marker for "not modelled"
+        o.out = "-;".into();
+    }
     o
 }
 
@@ -577,6 +581,10 @@ fn pick_chunking(rng: &mut Rng, len: usize) -> String {
 const LENS: [usize; 22] = [0, 1, 2, 3, 7, 8, 15, 16, 17, 100, 254, 255, 256, 257, 258, 300, 511, 512, 513, 600, 699, 700];
 
 fn rand_n(rng: &mut Rng, rem: usize) -> usize {
+    if rng.chance(1, 40) {
+        // lengths no stream can satisfy, up to the largest usize
+        return *rng.pick(&[usize::MAX, usize::MAX - 1, usize::MAX - rem, 1 << 63, (1 << 32) + 1, 100_000]);
+    }
     match rng.below(10) {
         0 => 0,
         1 | 2 => rng.range(1, 4) as usize,
@@ -595,7 +603,7 @@ fn rand_op(rng: &mut Rng, rem: usize) -> Op {
         3 | 4 => Op::Peek,
         5 | 6 | 7 | 8 => Op::Slice(rand_n(rng, rem)),
         9 | 10 | 11 => {
-            let want = rand_n(rng, rem);
+            let want = rand_n(rng, rem).min(1000);
             // nearest supported array size
             let n = *ARRAY_SIZES.iter().min_by_key(|k| (**k as i64 - want as i64).abs()).unwrap();
             Op::Array(n)
@@ -610,7 +618,8 @@ fn rand_op(rng: &mut Rng, rem: usize) -> Op {
         24 => Op::Str(rand_n(rng, rem).min(60)),
         25 | 26 => Op::Many(*rng.pick(&MANY_TYPES), rng.range(0, 9) as usize),
         27 | 28 | 29 => {
-            let n = match rng.below(6) {
+            let n = match rng.below(7) {
+                6 => rand_n(rng, rem),
                 0 => rem,
                 1 => rem + 1,
                 2 => rem.saturating_sub(1),
